@@ -283,3 +283,14 @@ Proof. vm_compute. reflexivity. Qed.
 Example C10_nonvacuous_typed :
   acc_ok (CPtr (CSmart (CPtr CObj))) (synth 3) = true /\ acc_ok (CPtr (CSmart (CPtr CObj))) (synth 2) = false.
 Proof. vm_compute. split; reflexivity. Qed.
+
+(* ---- known finding (see known_findings.json c10:pointer-column-cast) ------------------------ *)
+(* "output columns carry the declared (or declared tree) type" fails to give type-correct code when the
+   declared return is a pointer and a tree type is declared: the column is declared with the pointer depth,
+   the stored value is cast to the bare tree type name. *)
+Theorem C10_pointer_column_store_refuted :
+  exists e t,
+    (0 < t_depth (view t))%nat /\
+    column_value e t = ("double**", "COL = static_cast<double>(" +++ e +++ ");").
+Proof. exact pointer_column_store_witness. Qed.
+Print Assumptions C10_pointer_column_store_refuted.
